@@ -58,6 +58,8 @@ pub enum AlgKind {
     Intersection,
     Union,
     SymmetricDifference,
+    /// `Set<&T, N>::difference_ref` on sets of references to the two operands' elements
+    DifferenceRef,
 }
 
 #[derive(Clone, Copy, Debug)]
@@ -99,6 +101,8 @@ pub enum MapOp {
     Len,
     IsEmpty,
     Capacity,
+    /// every `Default` impl of the container and its iterators
+    Defaults,
     Drain(Take, End),
     IntoIter(IntoKind, Take, End),
     Iter(IterKind, i32, Vec<Cmd>),
@@ -129,6 +133,8 @@ pub enum SetOp {
     Len,
     IsEmpty,
     Capacity,
+    /// every `Default` impl of the container and its iterators
+    Defaults,
     Drain(Take, End),
     IntoIter(Take, End),
     Iter(Vec<Cmd>),
@@ -138,6 +144,9 @@ pub enum SetOp {
     Eq(usize),
     FromIter(bool, Vec<K>),
     Extend(bool, Vec<K>),
+    /// `Extend<&T>` (needs `T: Copy`): a `Set<u16, N>` of this register's capacity is built from
+    /// the first list, then extended BY REFERENCE with the second
+    ExtendRef(Vec<u16>, Vec<u16>),
     Alg(AlgKind, usize, Vec<Cmd>),
     IsSubset(usize),
     IsSuperset(usize),
@@ -331,6 +340,7 @@ fn map_op(a: &[&str]) -> Option<MapOp> {
         ["len"] => MapOp::Len,
         ["is_empty"] => MapOp::IsEmpty,
         ["capacity"] => MapOp::Capacity,
+        ["defaults"] => MapOp::Defaults,
         ["drain", t, e] => MapOp::Drain(take(t)?, end(e)?),
         ["into_iter", kind, t, e] => {
             let kind = match *kind {
@@ -393,6 +403,7 @@ fn set_op(a: &[&str]) -> Option<SetOp> {
         ["len"] => SetOp::Len,
         ["is_empty"] => SetOp::IsEmpty,
         ["capacity"] => SetOp::Capacity,
+        ["defaults"] => SetOp::Defaults,
         ["drain", t, e] => SetOp::Drain(take(t)?, end(e)?),
         ["into_iter", t, e] => SetOp::IntoIter(take(t)?, end(e)?),
         ["iter", s] => SetOp::Iter(script(s)?),
@@ -408,9 +419,15 @@ fn set_op(a: &[&str]) -> Option<SetOp> {
             crate::ctl::with(|c| c.hint_mode = p.parse().unwrap_or(0));
             SetOp::Extend(*p != "0", keys(xs)?)
         }
+        ["extend_ref", init, xs] => {
+            let a: Option<Vec<u16>> = list(init)?.into_iter().map(|x| x.parse().ok()).collect();
+            let b: Option<Vec<u16>> = list(xs)?.into_iter().map(|x| x.parse().ok()).collect();
+            SetOp::ExtendRef(a?, b?)
+        }
         ["alg", kind, o, s] => {
             let kind = match *kind {
                 "difference" => AlgKind::Difference,
+                "difference_ref" => AlgKind::DifferenceRef,
                 "intersection" => AlgKind::Intersection,
                 "union" => AlgKind::Union,
                 "symmetric_difference" => AlgKind::SymmetricDifference,
